@@ -32,6 +32,7 @@ import DK.Props.TreeGrad
 import DK.Props.Link
 import DK.Lemmas.Bridge
 import DK.Lemmas.BridgeVec
+import DK.Lemmas.BridgeSets
 /-!
 # All property modules together (built by setup_cmd; also checks that the helper-lemma layers do not clash)
 -/
